@@ -92,7 +92,7 @@ CORPUS_SEED = 777
 def build_universe(seed, tier):
     """the seeded universe, followed by the fixed corpus universe (definitions prefixed with K), whose
     types are the ones of the golden corpus (C06)"""
-    from universe import Universe, stress_defs, Adt, Seq, Array, Sum, Str, Phantom, near_miss_mutants, Prim, Tuple, Def, Range
+    from universe import Universe, stress_defs, twin_defs, Adt, Seq, Array, Sum, Str, Phantom, near_miss_mutants, Prim, Tuple, Def, Range
     n_types, depth, n_defs = tier_params(tier)
     u = Universe(seed, n_types=n_types, max_depth=depth, n_defs=n_defs).build()
     c = Universe(CORPUS_SEED, n_types=40, max_depth=3, n_defs=10, prefix='K').build()
@@ -118,6 +118,31 @@ def build_universe(seed, tier):
     st += [Seq('vec', Adt(byname['KZ10'], [], [])), Adt(byname['KD5'], [Seq('vec', Adt(byname['KZ10'], [], []))], [])]
     st += [Seq('vec', Adt(byname['KZU'], [], [])), Array(Adt(byname['KZU'], [], []), 3), Seq('bs', Adt(byname['KZV'], [], [])),
            Adt(byname['KD5'], [Seq('vec', Adt(byname['KZV'], [], []))], [])]
+    # round 6: very long type names (32 levels of Vec<Option<..>>: > 1 KiB; a ControlFlow tree of depth 7: > 4 KiB; four levels
+    # of 12-tuples: > 64 KiB); a 16384-aligned structure behind a byte vector; zero-byte items that are not zero-sized
+    def nest(t, n):
+        for k in range(n):
+            t = Sum('opt', [t]) if k % 2 == 0 else Seq('vec', t)
+        return t
+    def cftree(d):
+        return Prim('u8') if d == 0 else Sum('cf', [cftree(d - 1), cftree(d - 1)])
+    t12 = Prim('u8')
+    for _ in range(4): t12 = Tuple(t12, 12)
+    z11 = Adt(byname['KZ11'], [], [])
+    kd5z = Adt(byname['KD5'], [Seq('vec', z11)], [])
+    for t in (z11, kd5z):
+        t.known = ('C01', 'C02', 'C07')
+    unit1 = Array(Prim('unit'), 1)
+    # (the 12^4-tuple itself, as a value type, makes `serialize_zero` of an unoptimized build a 40 MB function with an 8 MB
+    # frame — every `max_size_of` of its 20736 leaves is `#[inline(always)]` — so it is used as a marker only)
+    st += [nest(Prim('u16'), 32), cftree(7), Phantom(t12), z11, kd5z,
+           Adt(byname['KP2'], [Seq('vec', Adt(byname['KW1'], [unit1], [])), Str()], [])]
+    # round 6: twins (same identifier and same `type_name`, different definitions), used one after the other in one process
+    tw = twin_defs('K')
+    sd = sd + tw
+    for d in tw:
+        a = Adt(d, [], [])
+        st += [a, Seq('vec', Adt(d, [], []))]
     u.slice_elems = list(u.slice_elems) + [Adt(byname['KZU'], [], []), Adt(byname['KZV'], [], []), Adt(byname['KZ10'], [], []), Adt(byname['KZE2'], [], []), Adt(byname['KZ8'], [], [])]
     u.corpus_start = len(u.types)
     u.corpus_rust = [t.rust() for t in c.types] + [t.rust() for t in st]
@@ -143,7 +168,7 @@ def build_universe(seed, tier):
     base_n = len(u.types)
     for i in range(base_n):
         t = u.types[i]
-        if not isinstance(t, Adt) or t.d.tparams or t.d.module or t.d.name in done:
+        if not isinstance(t, Adt) or t.d.tparams or t.d.module or t.d.block is not None or t.d.name in done:
             continue
         done.add(t.d.name)
         for kind, md in near_miss_mutants(t.d, counter):
@@ -205,7 +230,7 @@ def build_universe(seed, tier):
     for t in u.types:
         for x in t.walk():
             if isinstance(x, Adt) and x.d.align_attr > 64 and not x.known:
-                x.known = ('C01', 'C02', 'C03', 'C04', 'C06', 'C07', 'C14', 'C18')
+                x.known = ('C01', 'C02', 'C07') if x.d.align_attr > 128 else ('C01', 'C02', 'C03', 'C04', 'C06', 'C07', 'C14', 'C18')
     # generic arguments: phantom data of different types; all instances of one generic definition, pairwise
     ph = [add(Phantom(Prim('u8'))), add(Phantom(Prim('i8'))), add(Phantom(Str())), add(Seq('vec', Phantom(Prim('u8')))), add(Seq('vec', Phantom(Str())))]
     for (a, b) in ((ph[0], ph[1]), (ph[0], ph[2]), (ph[3], ph[4])):
